@@ -66,7 +66,7 @@ func dollarOperandFuncs(p *gen.Path) map[string]bool {
 }
 
 func compareCallLogs(rec *Recorder, res *spec.Result, st *Stats, ast *gen.Path) string {
-	return compareCallLogsEq(rec, res, st, ast, reflect.DeepEqual)
+	return compareCallLogsEq(rec, res, st, ast, deepSame)
 }
 
 func compareCallLogsEq(rec *Recorder, res *spec.Result, st *Stats, ast *gen.Path, same func(a, b interface{}) bool) string {
